@@ -38,6 +38,15 @@ CLAIMED = {
  "C17": dict(level="exploration", technique="property-based testing (rapid) with an independent SAN denotation oracle + exhaustive enumeration of the 65,536 move-field combinations",
    text="All legal moves of generated (disambiguation-rich and general) positions are rendered in SAN variants and UCI and parsed back; a string must yield exactly the one legal move it denotes and 'no move' when it denotes none or several (independent denotation oracle); illegal pseudo-legal moves and notations of other positions must be rejected; ValidateMove <=> legal. The packed encoding is checked exhaustively over all (from,to,type,promotion) combinations with boundary and drawn sort values and over the full value range for drawn moves.",
    note="Only well-formed SAN/UCI-shaped strings are generated; value range [ValueNA, ValueInf]; the combination encoding to MoveNone is excluded (SetValue documented as no-op).", ref="DESIGN.md §2 C17"),
+ "C16": dict(level="exploration", technique="property-based testing (rapid) with structure-aware FEN / UCI-line mutators + coverage-guided native go fuzzing (thorough); semantic oracle (round-trip, consistency, liveness) inside the target",
+   text="FEN: valid FENs of generated legal positions and 1-2 structural mutations of them (and raw coverage-guided fuzzing in the thorough tier) must yield an error or a well-formed position (consistent board/bitboards/kings/totals, one king per side) whose FEN output re-parses to an identical snapshot and on which the engine's own generators, predicates, evaluation and do/undo run without panic; legal positions must be accepted and print canonically. UCI: generated command-line sequences with injected faults must not panic any goroutine, the handler must still answer isready and hold the last validly set position.",
+   note="Inputs whose only effect is resource exhaustion (Hash > 64 MB, perft > 4, deep searches without stop) are excluded by construction and counted.", ref="DESIGN.md §2 C16"),
+ "C19": dict(level="exploration", technique="property-based testing (rapid): model-based (replay of legal prefixes) + metamorphic (three formats, GOMAXPROCS schedules) over generated game collections",
+   text="Generated game collections (shared prefixes, duplicates, transpositions, injected illegal / unreadable tokens) are rendered in the three formats with plain, standard and hostile-but-legal PGN decorations and built under GOMAXPROCS 1/4/16; entry set and every visit count must equal the model, every offered move must be legal, link to the right entry and be offered once; a time-controlled search with the book enabled must return a legal book move.",
+   note="Schedule coverage is by GOMAXPROCS variation and repetition (and the race detector in the thorough tier), not exhaustive over interleavings. Promotion games are excluded from the coordinate format; unreadable tokens only in SAN/PGN.", ref="DESIGN.md §2 C19"),
+ "C20": dict(level="fault_enumeration", technique="fault injection with exhaustive enumeration of all crash points (every prefix length of the written cache file) + rapid-drawn corruptions; oracle: model of the source file, watchdog for termination",
+   text="For generated books every prefix length of the written cache file (every crash point of the non-atomic save), plus missing / empty files and drawn bit flips, splices and garbage, is installed as the cache and a fresh initialisation (and a second one in the same process) must terminate without panic within the watchdog and yield exactly the book of the source file; a saved cache loaded back must equal the source-built book entry by entry.",
+   note="Crash model: the file holds a prefix of a complete save. A corruption that still decodes as a different valid book is outside 'undecodable' and excluded (counted). A hang wedges the process (package-level mutex), so the worker exits and the driver confirms the in-flight case by replay.", ref="DESIGN.md §2 C20"),
 }
 
 NOT_YET = "check not built yet in this session (work in progress; see DESIGN.md)"
